@@ -61,7 +61,7 @@ def check(run):
                   'lzma model: 2-byte header + payload', 'SQLite builder model: CREATE TABLE on open (fails on an existing file), one durable effect per client']
   run.assumptions += ['real HTTP semantics and sha256 itself are outside the claim (hash computed for real on concrete payloads)',
                       'crash points: before every file-system effect and every network read']
-  run.bounds = {'payload': [LENGTH_NAMES[i] for i in lens], 'crashes': '1 or 2, then a clean call', 'network fault': 'at block 0..3 or none',
+  run.bounds = {'payload': [LENGTH_NAMES[i] for i in lens], 'crashes': '1 or 2, then a clean call', 'network fault': 'dropped connection at block 0..3, HTTP 403 answer, or none',
                 'partial write': '0..5 bytes kept'}
   jobs, meta = [], []
   for L in lens:
@@ -85,6 +85,9 @@ def check(run):
         run.fail('%s: cannot parse %r' % (name, r['args']))
         continue
       a['lcfg'] = L
+      if 'ModelGap' in (r['message'] or ''):
+        run.ob(name + ':model-gap', 'error', detail='the code uses an API the environment model does not provide: ' + r['message'][:200])
+        continue
       v = run_disk(L, func, a)
       what = v[0] if v else 'not reproduced on a real temporary directory'
       run.violation(classify(what) if v else 'unreproduced:' + name, '%s with %s: %s' % (name, {k: a[k] for k in a if k != 'lcfg'}, what),
